@@ -54,7 +54,7 @@ theorem allowed_end_keeps_skip (p : Policy) (st : LoopState) (el : Bytes)
   rcases h with h | h <;> simp [h]
 
 example :
-    let p : Policy := { elsAndAttrs := [(b!"b", [])], elsMatchingAndAttrs := [(⟨1, hasPrefix b!"my-"⟩, [])],
+    let p : Policy := { initialized := true, elsAndAttrs := [(b!"b", [])], elsMatchingAndAttrs := [(⟨1, hasPrefix b!"my-"⟩, [])],
                         setOfElementsAllowedWithoutAttrs := [b!"b", b!"my-el"],
                         setOfElementsToSkipContent := [b!"object"] }
     p.sanitizeCore b!"a<object>1<b>2</b><my-el>x</my-el>LEAK<object>3</object>4</object>z" = b!"az" := by decide
